@@ -122,6 +122,8 @@ Definition ack_none (e : event) : option yexp :=
   | ERx (Publish d m id) => Some (YPub (Publish d m id))
   | ERx (Pubrel id) => Some (YRel id)
   | ECb _ _ => None
+  | ESave Incoming _ _ | ELookup _ _ _ | EDelete Incoming _ _ => None
+      (* the incoming store is only touched inside the PUBLISH(QoS 2) / PUBREL sequences *)
   | _ => Some YNone
   end.
 
@@ -265,4 +267,55 @@ Fixpoint scan_resend (x : rexp) (es : list event) : option rexp :=
   match es with
   | [] => Some x
   | e :: es' => match resend_step x e with Some x' => scan_resend x' es' | None => None end
+  end.
+
+
+(* C10 no-ack-on-error, second half: after a callback error the connection gets closed.  The scanner
+   keeps two flags per Client: a callback returned an error; the connection is over (conn.Close was
+   called, a Send failed or Receive failed).  The driver requires failed -> over wherever the harness
+   says that the client has come to rest. *)
+Record cscan := CScan { cs_failed : bool; cs_over : bool }.
+
+Definition close_step (x : cscan) (e : event) : cscan :=
+  match e with
+  | ENew _ => CScan false false
+  | ECb _ Fail => CScan true (cs_over x)
+  | EConnClose _ _ | ERxErr => CScan (cs_failed x) true
+  | ETx _ _ Fail => CScan (cs_failed x) true
+  | _ => x
+  end.
+
+Definition scan_close (es : list event) : cscan := fold_left close_step es (CScan false false).
+Definition error_closes_ok (x : cscan) : bool := negb (cs_failed x) || cs_over x.
+
+(* C10 exactly-once, lower bound: what LookupPacket(Incoming, id) returns for a PUBREL is what the
+   observed SavePacket / DeletePacket / Reset calls leave there, where only the DeletePacket that ends a
+   PUBREL sequence (acknowledgement scanner in state YDel id) counts: a stored QoS 2 message is released
+   by its PUBREL and by nothing else. *)
+Definition rel_step (st : store) (y : yexp) (e : event) : store :=
+  match e with
+  | ESave Incoming p Ok => store_save st p
+  | EDelete Incoming id Ok =>
+    match y with YDel id' => if id =? id' then store_delete st id else st | _ => st end
+  | EReset _ Ok => []
+  | _ => st
+  end.
+
+Definition rel_ok (st : store) (e : event) : bool :=
+  match e with
+  | ELookup Incoming id (Some x) => option_eqb packet_eqb x (store_lookup st id)
+  | _ => true
+  end.
+
+(* both scanners in lockstep; None: the acknowledgement scanner or the lookup check failed *)
+Fixpoint scan_rel (st : store) (y : yexp) (es : list event) : option (store * yexp) :=
+  match es with
+  | [] => Some (st, y)
+  | e :: es' =>
+    if rel_ok st e then
+      match ack_step y e with
+      | Some y' => scan_rel (rel_step st y e) y' es'
+      | None => None
+      end
+    else None
   end.
